@@ -43,7 +43,7 @@ def required_cells(tier):
 
 
 def cases(tier, seed):
-    n_comm, n_modes = (240, 32) if tier == "quick" else (2400, 200)
+    n_comm, n_modes = (240, 32) if tier == "quick" else (1600, 120)
     out = []
     for i in range(n_comm):
         out.append({"kind": "commuting", "seed": seed, "idx": i, "tier": tier})
